@@ -15,6 +15,7 @@ import (
 	"io"
 	"net/http"
 	"sort"
+	"strings"
 	"sync"
 	"testing"
 	"testing/synctest"
@@ -111,6 +112,8 @@ func c16Transport(svc *c16Svc) func(*http.Request) (*http.Response, error) {
 			return reply(404, "not found")
 		case errors.Is(err, api.ErrValueNotChanged):
 			return reply(304, "")
+		case errors.Is(err, c16ErrReleased):
+			return nil, err
 		case req.Context().Err() != nil:
 			return nil, req.Context().Err() // what net/http reports when the request's context ends
 		}
@@ -238,6 +241,15 @@ type c16Svc struct {
 	logging bool
 	probe   bool // after the scenario: every Get is counted and answered "not found" at once
 	after   bool // during the final Refresh: a plain Get is a poll request (version 0), answered at once
+	// every wait of the service is bounded by the scenario's own end: when the harness calls release(), the
+	// requests that are STILL waiting (their context never ended although every caller has returned) are
+	// answered with an error and reported
+	stop     chan struct{}
+	final    chan struct{} // closed when the whole scenario function returns
+	stopped  bool
+	open     map[int]string // request id -> description
+	nextID   int
+	released []string
 }
 
 func (s *c16Svc) ms() int64 { return time.Since(s.t0).Milliseconds() }
@@ -263,12 +275,16 @@ func (s *c16Svc) Get(ctx context.Context, name string) (*api.SecretValue, error)
 		s.mu.Unlock()
 		if n > 50 {
 			// an implementation that keeps asking is no longer answered, so that virtual time can advance
-			<-ctx.Done()
-			return nil, ctx.Err()
+			select {
+			case <-ctx.Done():
+				return nil, ctx.Err()
+			case <-s.final: // (not s.stop: the probes come after release(), and must still be able to wait)
+				return nil, c16ErrReleased
+			}
 		}
 		return nil, api.ErrNotFound
 	}
-	owner := -1
+	owner := 99 // a request whose context does not descend from any caller's (rendered as caller 99: matches nobody)
 	if v, ok := ctx.Value(c16Key{}).(int); ok {
 		owner = v
 	}
@@ -281,13 +297,20 @@ func (s *c16Svc) Get(ctx context.Context, name string) (*api.SecretValue, error)
 		s.maxc[name] = s.conc[name]
 	}
 	s.log[name] = append(s.log[name], fmt.Sprintf("MStart %d %d", owner, s.ms()))
+	id := s.nextID
+	s.nextID++
+	s.open[id] = fmt.Sprintf("the request for %q made for caller %d at %d ms", name, owner, s.ms())
 	s.mu.Unlock()
 
 	out := "OCtx"
 	var err error
 	if sc.Kind == "hang" {
-		<-ctx.Done()
-		err = ctx.Err()
+		select {
+		case <-ctx.Done():
+			err = ctx.Err()
+		case <-s.stop:
+			err = c16ErrReleased
+		}
 	} else {
 		tm := time.NewTimer(time.Duration(sc.Delay) * time.Millisecond)
 		select {
@@ -300,10 +323,14 @@ func (s *c16Svc) Get(ctx context.Context, name string) (*api.SecretValue, error)
 		case <-ctx.Done():
 			tm.Stop()
 			err = ctx.Err()
+		case <-s.stop:
+			tm.Stop()
+			err = c16ErrReleased
 		}
 	}
 	s.mu.Lock()
 	defer s.mu.Unlock()
+	delete(s.open, id)
 	s.conc[name]--
 	s.log[name] = append(s.log[name], fmt.Sprintf("MEnd %d %d %s", owner, s.ms(), out))
 	if err != nil {
@@ -330,8 +357,38 @@ func (s *c16Svc) GetIfChanged(ctx context.Context, name string, old api.SecretVe
 	return nil, api.ErrNotFound
 }
 
+var c16ErrReleased = errors.New("request released by the harness at the end of the scenario")
+
+// release ends every request that is still waiting and reports them
+func (s *c16Svc) release() []string {
+	s.mu.Lock()
+	if !s.stopped {
+		s.stopped = true
+		close(s.stop)
+	}
+	var open []string
+	for _, d := range s.open {
+		open = append(open, fmt.Sprintf("%s, still in flight at %d ms", d, s.ms()))
+	}
+	sort.Strings(open)
+	s.mu.Unlock()
+	return open
+}
+
+// finish ends everything that may still wait on the service (end of the scenario function)
+func (s *c16Svc) finish() {
+	s.release()
+	s.mu.Lock()
+	defer s.mu.Unlock()
+	select {
+	case <-s.final:
+	default:
+		close(s.final)
+	}
+}
+
 func c16NewSvc() *c16Svc {
-	return &c16Svc{static: map[string]c16SV{"a": {ver: 1, tok: 100}}, scripts: map[string][]c16Script{}, vals: map[string]c16SV{},
+	return &c16Svc{stop: make(chan struct{}), final: make(chan struct{}), open: map[int]string{}, static: map[string]c16SV{"a": {ver: 1, tok: 100}}, scripts: map[string][]c16Script{}, vals: map[string]c16SV{},
 		log: map[string][]string{}, conc: map[string]int{}, maxc: map[string]int{}, polled: map[string]bool{}}
 }
 
@@ -432,6 +489,7 @@ func c16Policy(t *testing.T, in c16Input) Record {
 	svcHas := "None"
 	bubble(t, func(t *testing.T) {
 		svc := c16NewSvc()
+		defer svc.finish() // no request outlives the scenario
 		svc.static["x"] = c16SV{ver: 7, tok: 5}
 		ctx, cancel := context.WithCancel(context.Background())
 		defer cancel()
@@ -531,6 +589,7 @@ func c16Late(t *testing.T, in c16Input) Record {
 	second := "None"
 	bubble(t, func(t *testing.T) {
 		svc := c16NewSvc()
+		defer svc.finish() // no request outlives the scenario
 		svc.pollver = map[string]uint32{}
 		svc.static["x"] = c16SV{ver: 7, tok: 5}
 		ctx, cancel := context.WithCancel(context.Background())
@@ -641,12 +700,14 @@ type c16FlightObs struct {
 	FlTok    int  `json:"flush_token"`
 	FlCached bool `json:"cached_right_after_flush"`
 	AfterReq bool `json:"next_lookup_sends_request"`
+	Stuck    []string `json:"requests_still_open_after_every_caller_returned,omitempty"`
 }
 
 func c16RunFlights(t *testing.T, in c16Input) []c16FlightObs {
 	obs := make([]c16FlightObs, len(in.Flights))
 	bubble(t, func(t *testing.T) {
 		svc := c16NewSvc()
+		defer svc.finish()
 		svc.t0 = time.Now()
 		for _, f := range in.Flights {
 			svc.scripts[f.Name] = append([]c16Script(nil), f.Scripts...)
@@ -726,6 +787,14 @@ func c16RunFlights(t *testing.T, in c16Input) []c16FlightObs {
 		wd.Stop()
 		wcancel()
 		synctest.Wait()
+		// every caller has returned and every context of the scenario has ended: a request that is still
+		// waiting does not follow its caller's context.  Release it (so that the bubble can drain and the
+		// run goes on) and report it.
+		stuck := svc.release()
+		synctest.Wait()
+		for fi := range in.Flights {
+			obs[fi].Stuck = stuck
+		}
 		for fi, f := range in.Flights {
 			func() {
 				defer func() { recover() }()
@@ -905,6 +974,11 @@ func c16Flights(t *testing.T, in c16Input) []Record {
 		if obs[fi].FlSeen && !obs[fi].FlOK {
 			rec.Nontrivial = true
 		}
+		if len(obs[fi].Stuck) > 0 {
+			rec.Tags = append(rec.Tags, "request-outlived-every-caller")
+			rec.Direct = &DirectVerdict{OK: false, What: "a request does not end with its caller's context: " + strings.Join(obs[fi].Stuck, "; ") +
+				" - although every caller had returned and every context of the scenario had ended (released by the harness)"}
+		}
 		for _, r := range obs[fi].Results {
 			if r.Class >= 7 {
 				rec.Direct = &DirectVerdict{OK: false, What: fmt.Sprintf("caller of %q got result class %s", f.Name, names[r.Class])}
@@ -924,9 +998,20 @@ func c16PollH(t *testing.T, in c16Input) Record {
 	nreq := map[string]int{}
 	vals := map[string]int{}
 	cls, dur := -1, int64(-1)
+	stuck := 0
 	bubble(t, func(t *testing.T) {
 		var mu sync.Mutex
 		polling := false
+		open := 0
+		stop := make(chan struct{}) // closed when Refresh has returned: no request outlives the scenario
+		defer func() {
+			synctest.Wait()
+			mu.Lock()
+			stuck = open
+			mu.Unlock()
+			close(stop)
+			synctest.Wait()
+		}()
 		reply := func(code int, body string) (*http.Response, error) {
 			return &http.Response{StatusCode: code, Header: http.Header{}, Body: io.NopCloser(bytes.NewReader([]byte(body)))}, nil
 		}
@@ -958,9 +1043,17 @@ func c16PollH(t *testing.T, in c16Input) Record {
 			if idx < len(in.Polls) {
 				sc = in.Polls[idx]
 			}
+			mu.Lock()
+			open++
+			mu.Unlock()
+			defer func() { mu.Lock(); open--; mu.Unlock() }()
 			if sc.Kind == "hang" {
-				<-req.Context().Done()
-				return nil, req.Context().Err()
+				select {
+				case <-req.Context().Done():
+					return nil, req.Context().Err()
+				case <-stop:
+					return nil, c16ErrReleased
+				}
 			}
 			tm := time.NewTimer(time.Duration(sc.Delay) * time.Millisecond)
 			select {
@@ -968,6 +1061,9 @@ func c16PollH(t *testing.T, in c16Input) Record {
 			case <-req.Context().Done():
 				tm.Stop()
 				return nil, req.Context().Err()
+			case <-stop:
+				tm.Stop()
+				return nil, c16ErrReleased
 			}
 			switch sc.Kind {
 			case "ans":
@@ -1049,8 +1145,12 @@ func c16PollH(t *testing.T, in c16Input) Record {
 	if slow {
 		tags = append(tags, "real-client-slow-answer>30s")
 	}
-	return Record{Kind: "pollh", Input: in, Obs: map[string]any{"class": cls, "requests": nreq, "duration_ms": dur, "tokens": vals},
+	rec := Record{Kind: "pollh", Input: in, Obs: map[string]any{"class": cls, "requests": nreq, "duration_ms": dur, "tokens": vals, "requests_open_after_refresh": stuck},
 		Key: coq, Nontrivial: slow, Tags: tags, Coq: coq}
+	if stuck > 0 {
+		rec.Direct = &DirectVerdict{OK: false, What: fmt.Sprintf("%d request(s) of the poll were still in flight after Refresh had returned and its context had ended", stuck)}
+	}
+	return rec
 }
 
 // ---- generation: all caller instants are distinct multiples of 10 ms; service delays are 5 mod 10,
